@@ -231,6 +231,26 @@ class Metadata(CbMixin, ProgMixin):
         else:
             self.num_pieces = math.ceil(len(self.pieces) / SHA1)
 
+    @staticmethod
+    def _check_parts(parts: list):
+        """
+        Refuse path elements that could lead outside of the destination.
+
+        Parameters
+        ----------
+        parts : list
+            path elements taken from the torrent file
+
+        Raises
+        ------
+        ValueError
+            if one of the elements is unsafe
+        """
+        for part in parts:
+            if (not isinstance(part, str) or part in ("", ".", "..")
+                    or "/" in part or os.sep in part or "\0" in part):
+                raise ValueError(f"unsafe path element in torrent: {part!r}")
+
     def extract(self):
         """
         Decode and extract information for the .torrent file.
@@ -239,6 +259,7 @@ class Metadata(CbMixin, ProgMixin):
         info = meta["info"]
         self.piece_length = info["piece length"]
         self.name = info["name"]
+        self._check_parts([self.name])
         self.meta_version = info.get("meta version", 1)
         self.pieces = info.get("pieces", bytes())
         if self.meta_version == 2:
@@ -256,6 +277,7 @@ class Metadata(CbMixin, ProgMixin):
         elif "files" in info:
             for f in info["files"]:
                 path = f["path"]
+                self._check_parts(path)
                 full = os.path.join(self.name, *path)
                 self.files.append({
                     "path": Path(full).parent,
@@ -318,6 +340,7 @@ class Metadata(CbMixin, ProgMixin):
             list of paths leading up to the current key value.
         """
         for key, val in tree.items():
+            self._check_parts([key])
             if "" in val:
                 self.filenames.add(key)
                 path = Path(os.path.join(*partials))
